@@ -82,6 +82,9 @@ def make_eval(c, adapter_kw=None):
 
 def targets(ctx):
     c = corpus()
+    from . import _poison
+
+    _poison_fn = lambda: _poison.apply(c)  # noqa: E731
     base = cm.msg_tree_strategy(c)
 
     @st.composite
@@ -371,7 +374,7 @@ def targets(ctx):
     from . import _wkt
 
     return [
-        Target("corpus_values", make_eval(c), strategy=strat(), quick=700, thorough=8000, time_quick=70),
+        Target("corpus_values", make_eval(c), poison=_poison_fn, strategy=strat(), quick=700, thorough=8000, time_quick=70),
         Target("known_finding_probes", probe_ev, cases=probe_cases, exhaustive=True, shard_cases=False),
         Target("grammar_schema_values", grammar_ev, strategy=gstrat, quick=3, thorough=40, time_quick=60, time_thorough=900, pin_budget=10, pin_sigs=1),
         Target("user_types_named_like_wkt", wktlike_ev, strategy=wktlike_strat(), quick=150, thorough=2000,
